@@ -290,6 +290,44 @@ impl World {
     }
   }
 
+  /// see `Space::chains`
+  pub fn chain(ch: &Ch, max_roots: usize, force_roots: Option<usize>) -> World {
+    let len = 1 + ch.shape("chain_len", 3);
+    // 0: root, 1: second importer, 2..2+len: hops, 2+len: terminal, 3+len: leaf
+    let n = 7;
+    let mut kinds = vec![Kind::Ts; n];
+    let mut redirect_to = vec![0; n];
+    for i in 0..len {
+      kinds[2 + i] = Kind::Redirect;
+      redirect_to[2 + i] = 3 + i;
+    }
+    let terminal = *ch.pick("terminal_kind", &[Kind::Ts, Kind::Js, Kind::Missing, Kind::Error]);
+    kinds[2 + len] = terminal;
+    let form = *ch.pick("form_of_the_import_of_the_head", &[Form::Import, Form::Dynamic, Form::ImportType]);
+    let mut edges = vec![Edge { src: 0, form, dst: Target::Spec(2), aux: 0 }];
+    // the second importer: not at all, or into the chain at hop k (k = len: the terminal itself)
+    let enter = ch.shape("second_importer_enters_at", len + 2);
+    if enter > 0 {
+      edges.push(Edge { src: 1, form: Form::Import, dst: Target::Spec(2 + enter - 1), aux: 0 });
+    }
+    if terminal == Kind::Ts && ch.flag("terminal_imports_leaf") {
+      edges.push(Edge { src: 2 + len, form: Form::Import, dst: Target::Spec(3 + len), aux: 0 });
+    }
+    let n_roots = match force_roots {
+      Some(n) => n,
+      None => 1 + ch.shape("extra_roots", max_roots.clamp(1, 2)),
+    };
+    World {
+      remote: true,
+      kinds,
+      attrs: vec![Attr::None; n],
+      redirect_to,
+      edges,
+      types_header: None,
+      n_roots,
+    }
+  }
+
   pub fn generate(ch: &Ch, o: &GenOpts) -> World {
     let pick = |label: &'static str, n: usize| -> usize {
       if o.deviation_cost { ch.choose(label, n) } else { ch.shape(label, n) }
@@ -696,16 +734,30 @@ pub struct Space {
   pub cost: bool,
   pub special: bool,
   pub remote: bool,
+  /// worlds around a redirect chain instead of generated ones (`Space::chains`)
+  pub chain: bool,
 }
 
 impl Space {
   pub fn generic(n_specs: usize, max_edges: usize) -> Space {
-    Space { n_specs, max_edges, kinds: KINDS, forms: None, cost: true, special: true, remote: true }
+    Space { n_specs, max_edges, kinds: KINDS, forms: None, cost: true, special: true, remote: true, chain: false }
   }
   pub fn core(n_specs: usize, max_edges: usize, kinds: &'static [Kind]) -> Space {
-    Space { n_specs, max_edges, kinds, forms: Some(CORE_FORMS), cost: false, special: false, remote: false }
+    Space { n_specs, max_edges, kinds, forms: Some(CORE_FORMS), cost: false, special: false, remote: false, chain: false }
+  }
+  /// Worlds around a redirect chain of 1-3 hops, enumerated completely (all
+  /// choices are free): m0 (root) imports the head in one of three forms, m1
+  /// (optionally a second root) enters the chain at any hop or not at all, the
+  /// chain ends in a TypeScript / JavaScript / missing / failing entry, and a
+  /// TypeScript terminal may import a leaf. The middle hops of a chain are
+  /// specifiers that nothing imports directly.
+  pub fn chains() -> Space {
+    Space { n_specs: 7, max_edges: 3, kinds: KINDS, forms: None, cost: false, special: false, remote: true, chain: true }
   }
   pub fn generate(&self, ch: &Ch, max_roots: usize, force_roots: Option<usize>) -> World {
+    if self.chain {
+      return World::chain(ch, max_roots, force_roots);
+    }
     World::generate(
       ch,
       &GenOpts {
